@@ -110,6 +110,10 @@ func c03Grid() []string {
 	out = append(out, "http://a.example/p?k=%", "http://a.example/p?k=%4", "http://a.example/p?k=%%34", "http://a.example/p?k=%%341", "http://a.example/p?k=100%&x=1", "http://a.example/p?k=100q=1", "http://a.example/p?k=%zz", "http://a.example/p?k=3")
 	out = append(out, "struct:rawpath:", "struct:forcequery:", "struct:opaque:http", "struct:opaque:https", "struct:space:", "struct:upperhost:")
 	out = append(out, "struct:opaqueh:a.example", "struct:opaqueh:b.example", "struct:opaqueh:A.EXAMPLE", "struct:opaqueh:a.example?user=1", "struct:opaqueh:a.example?user=2", "struct:opaqueh:b.example?user=1")
+	// dot-segments spelled both ways in one path; hosts that differ only by a
+	// letter whose Unicode lower-casing is an ASCII letter
+	out = append(out, "http://a.example/a/b", "http://a.example/b", "http://a.example/a/%2E%2E/../b", "http://a.example/a/../%2e%2e/b", "http://a.example/x/a/%2e/../b", "http://a.example/x/b",
+		"http://\u0130stanbul.example/a", "http://istanbul.example/a", "http://ISTANBUL.example/a", "http://\u212aelvin.example/a", "http://kelvin.example/a")
 	// IPv6 literals with a zone
 	out = append(out, "http://[fe80::1%25eth0]/a", "http://[fe80::1%25eth0]/a/../a", "http://[FE80::1%25eth0]:80/%61#x", "http://[fe80::1%25eth1]/a", "http://[fe80::2%25eth0]/a", "http://[fe80::1%25eth0]:8080/a", "http://[fe80::1%25eth0]/b")
 	// drop what Go cannot parse / build a request for
@@ -209,7 +213,8 @@ func TestC03Bulk(t *testing.T) {
 				st = append(st, u) // hand-built URL values (opaque forms, ...)
 			}
 		}
-		st = append(st, "http://a.example/a", "https://a.example/a", "http://b.example/a", "http://a.example/a?user=1")
+		st = append(st, "http://a.example/a", "https://a.example/a", "http://b.example/a", "http://a.example/a?user=1",
+			"http://a.example/a/b", "http://a.example/b", "http://a.example/a/%2E%2E/../b", "http://a.example/a/../%2e%2e/b", "http://a.example/x/a/%2e/../b", "http://a.example/x/b")
 		cases = append(cases, c03Case{URLs: fam}, c03Case{URLs: hp}, c03Case{URLs: st})
 	}
 	base := len(cases)
